@@ -52,8 +52,8 @@ ALT_ENTRY = {
 
 
 def plan(tier, seed):
-    return [{"shard": i, "nshards": NSHARDS, "pool": 6 if tier == "quick" else 12,
-             "n_gra": 60 if tier == "quick" else 2000, "seeds": 20 if tier == "quick" else 50}
+    return [{"shard": i, "nshards": NSHARDS, "pool": 6 if tier == "quick" else 16,
+             "n_gra": 60 if tier == "quick" else 20000, "seeds": 20 if tier == "quick" else 100}
             for i in range(NSHARDS)]
 
 
